@@ -1814,6 +1814,93 @@ CMR_ERROR CMRseymourDecompose(CMR* cmr, CMR_CHRMAT* matrix, bool ternary, CMR_SE
   return CMR_OKAY;
 }
 
+/**
+ * \brief Turns an already decomposed node back into an unprocessed one; only the matrix and its transpose are kept.
+ *
+ * Used when a subtree is recomputed: children, minors, graphs, series-parallel reductions, pivots, nested-minor data and
+ * all flags that describe the outcome of earlier processing must not survive.
+ */
+
+static
+CMR_ERROR resetNode(
+  CMR* cmr,               /**< \ref CMR environment. */
+  CMR_SEYMOUR_NODE* node  /**< Seymour decomposition node. */
+)
+{
+  assert(cmr);
+  assert(node);
+
+  for (size_t c = 0; c < node->numChildren; ++c)
+  {
+    CMR_CALL( CMRseymourRelease(cmr, &node->children[c]) );
+    CMR_CALL( CMRfreeBlockArray(cmr, &node->childRowsToParent[c]) );
+    CMR_CALL( CMRfreeBlockArray(cmr, &node->childColumnsToParent[c]) );
+    CMR_CALL( CMRfreeBlockArray(cmr, &node->childSpecialRows[c]) );
+    CMR_CALL( CMRfreeBlockArray(cmr, &node->childSpecialColumns[c]) );
+  }
+  CMR_CALL( CMRfreeBlockArray(cmr, &node->children) );
+  CMR_CALL( CMRfreeBlockArray(cmr, &node->childRowsToParent) );
+  CMR_CALL( CMRfreeBlockArray(cmr, &node->childColumnsToParent) );
+  CMR_CALL( CMRfreeBlockArray(cmr, &node->childSpecialRows) );
+  CMR_CALL( CMRfreeBlockArray(cmr, &node->childSpecialColumns) );
+  node->numChildren = 0;
+
+  for (size_t row = 0; row < node->numRows; ++row)
+    node->rowsToChild[row] = SIZE_MAX;
+  for (size_t column = 0; column < node->numColumns; ++column)
+    node->columnsToChild[column] = SIZE_MAX;
+
+  for (size_t m = 0; m < node->numMinors; ++m)
+    CMR_CALL( CMRminorFree(cmr, &node->minors[m]) );
+  CMR_CALL( CMRfreeBlockArray(cmr, &node->minors) );
+  node->numMinors = 0;
+  node->memMinors = 0;
+
+  CMR_CALL( CMRgraphFree(cmr, &node->graph) );
+  CMR_CALL( CMRfreeBlockArray(cmr, &node->graphForest) );
+  CMR_CALL( CMRfreeBlockArray(cmr, &node->graphCoforest) );
+  CMR_CALL( CMRfreeBlockArray(cmr, &node->graphArcsReversed) );
+
+  CMR_CALL( CMRgraphFree(cmr, &node->cograph) );
+  CMR_CALL( CMRfreeBlockArray(cmr, &node->cographForest) );
+  CMR_CALL( CMRfreeBlockArray(cmr, &node->cographCoforest) );
+  CMR_CALL( CMRfreeBlockArray(cmr, &node->cographArcsReversed) );
+
+  CMR_CALL( CMRfreeBlockArray(cmr, &node->seriesParallelReductions) );
+  node->numSeriesParallelReductions = 0;
+  node->testedSeriesParallel = false;
+
+  CMR_CALL( CMRfreeBlockArray(cmr, &node->pivotRows) );
+  CMR_CALL( CMRfreeBlockArray(cmr, &node->pivotColumns) );
+  node->numPivots = 0;
+
+  CMR_CALL( CMRdensebinmatrixFree(cmr, &node->denseMatrix) );
+  CMR_CALL( CMRfreeBlockArray(cmr, &node->denseRowsOriginal) );
+  CMR_CALL( CMRfreeBlockArray(cmr, &node->denseColumnsOriginal) );
+  CMR_CALL( CMRfreeBlockArray(cmr, &node->nestedMinorsRowsDense) );
+  CMR_CALL( CMRfreeBlockArray(cmr, &node->nestedMinorsColumnsDense) );
+
+  node->nestedMinorsLength = 0;
+  CMR_CALL( CMRfreeBlockArray(cmr, &node->nestedMinorsSequenceNumRows) );
+  CMR_CALL( CMRfreeBlockArray(cmr, &node->nestedMinorsSequenceNumColumns) );
+
+  CMR_CALL( CMRchrmatFree(cmr, &node->nestedMinorsMatrix) );
+  CMR_CALL( CMRchrmatFree(cmr, &node->nestedMinorsTranspose) );
+  CMR_CALL( CMRfreeBlockArray(cmr, &node->nestedMinorsRowsOriginal) );
+  CMR_CALL( CMRfreeBlockArray(cmr, &node->nestedMinorsColumnsOriginal) );
+  node->nestedMinorsLastGraphic = SIZE_MAX;
+  node->nestedMinorsLastCographic = SIZE_MAX;
+
+  node->type = CMR_SEYMOUR_NODE_TYPE_UNKNOWN;
+  node->regularity = 0;
+  node->graphicness = 0;
+  node->cographicness = 0;
+  node->testedTwoConnected = false;
+  node->testedR10 = false;
+
+  return CMR_OKAY;
+}
+
 CMR_ERROR CMRregularityCompleteDecomposition(CMR* cmr, CMR_SEYMOUR_NODE* subtree, CMR_SEYMOUR_PARAMS* params,
   CMR_SEYMOUR_STATS* stats, double timeLimit)
 {
@@ -1841,16 +1928,9 @@ CMR_ERROR CMRregularityCompleteDecomposition(CMR* cmr, CMR_SEYMOUR_NODE* subtree
   if (stats)
     stats->totalCount++;
 
-  for (size_t c = 0; c < subtree->numChildren; ++c)
-  {
-    CMR_CALL( CMRseymourRelease(cmr, &subtree->children[c]) );
-    CMR_CALL( CMRfreeBlockArray(cmr, &subtree->childRowsToParent[c]) );
-    CMR_CALL( CMRfreeBlockArray(cmr, &subtree->childColumnsToParent[c]) );
-    CMR_CALL( CMRfreeBlockArray(cmr, &subtree->childSpecialRows[c]) );
-    CMR_CALL( CMRfreeBlockArray(cmr, &subtree->childSpecialColumns[c]) );
-  }
-
-  subtree->type = CMR_SEYMOUR_NODE_TYPE_UNKNOWN;
+  /* An already decomposed node is recomputed from scratch; an unknown one is continued from its current state. */
+  if (subtree->type != CMR_SEYMOUR_NODE_TYPE_UNKNOWN)
+    CMR_CALL( resetNode(cmr, subtree) );
 
   DecompositionQueue* queue = NULL;
   CMR_CALL( CMRregularityQueueCreate(cmr, &queue) );
@@ -1929,20 +2009,14 @@ CMR_ERROR CMRregularityRefineDecomposition(CMR* cmr, size_t numNodes, CMR_SEYMOU
   DecompositionQueue* queue = NULL;
   CMR_CALL( CMRregularityQueueCreate(cmr, &queue) );
   DecompositionTask* decTask = NULL;
+  CMR_ERROR error = CMR_OKAY;
 
   for (size_t i = 0; i < numNodes; ++i)
   {
     CMR_SEYMOUR_NODE* subtree = nodes[i];
-    for (size_t c = 0; c < subtree->numChildren; ++c)
-    {
-      CMR_CALL( CMRseymourRelease(cmr, &subtree->children[c]) );
-      CMR_CALL( CMRfreeBlockArray(cmr, &subtree->childRowsToParent[c]) );
-      CMR_CALL( CMRfreeBlockArray(cmr, &subtree->childColumnsToParent[c]) );
-      CMR_CALL( CMRfreeBlockArray(cmr, &subtree->childSpecialRows[c]) );
-      CMR_CALL( CMRfreeBlockArray(cmr, &subtree->childSpecialColumns[c]) );
-    }
-
-    subtree->type = CMR_SEYMOUR_NODE_TYPE_UNKNOWN;
+    /* An already decomposed node is recomputed from scratch; an unknown one is continued from its current state. */
+    if (subtree->type != CMR_SEYMOUR_NODE_TYPE_UNKNOWN)
+      CMR_CALL( resetNode(cmr, subtree) );
 
     CMR_CALL( CMRregularityTaskCreateRoot(cmr, subtree, &decTask, params, stats, time, timeLimit) );
     CMRregularityQueueAdd(queue, decTask);
